@@ -65,6 +65,7 @@ func runC03(c *Ctx) {
 	})
 	r.Rule("R03-window", "the window handed to a child is the exact pre-image of the parent's window under the child-score transformation: Negate(IncrementMateDistance(child lower bound)) = beta and Negate(IncrementMateDistance(child upper bound)) = current alpha, for heuristic and mate scores alike (otherwise mate bounds drift by a ply per level and fail-hard returns produce impossible mate distances)", 20)
 	c.guard("R03-window", func() { c03Window(c, m, "R03-window") })
+	r.Rule("R03-handback", "the no-legal-move verdict, which AdjudicateNoLegalMoves writes into the board, is taken back by the search function itself: the result the board had is read immediately before and written back on every path to the return (at the root no take-back would do it)", 4)
 	// a cut-off taken before any move was tried would hide a mate/stalemate at that node (rule of C13)
 	c.guard("R03-terminal", func() {
 		rec := recursiveSearchFuncs(c, m)
@@ -72,6 +73,7 @@ func runC03(c *Ctx) {
 		for _, f := range rec {
 			m.children[f] = true
 		}
+		c.guard("R03-handback", func() { c03Handback(c, m, rec) })
 		r.WithAlias("R13-failhard", "-", func() {
 			r.WithAlias("R13-exact", "R03-terminal", func() { c13FailHard(c, m, rec) })
 		})
